@@ -124,7 +124,7 @@ def main():
     known = [k for k in vlib.load_known() if k.get('property') == prop and k.get('status') == 'known']
     rc = 0
     real_violations = 0
-    os.makedirs(os.path.join(VERIF, 'replays', prop), exist_ok=True)
+    os.makedirs(os.path.join(vlib.OUT, 'replays', prop), exist_ok=True)
     for o in violations:
         kf = [k for k in known if k['obligation'] == o['id']]
         if kf:
@@ -142,7 +142,7 @@ def main():
                 results[o['id']]['status'] = 'known-finding'
                 continue
         real_violations += 1
-        path = os.path.join(VERIF, 'replays', prop, o['id'].replace('/', '_') + '.json')
+        path = os.path.join(vlib.OUT, 'replays', prop, o['id'].replace('/', '_') + '.json')
         rep = dict(property=prop, obligation=o['id'], claim=o.get('desc'), engine=o['engine'],
                    verifier_output=results[o['id']].get('detail'))
         suffix = ''
